@@ -118,8 +118,8 @@ def handle (line : String) : String :=
     | none => "none"
   | ["regionkeys", a, b, c, d, e, f, g] =>
     let p := mkRegion a b c d e f g
-    " ".intercalate ((regionOutBlocks p).map (fun bi =>
-      s!"{bi}:{regionKey p bi}:{if regionTaskOk p bi then "ok" else "bad"}"))
+    " ".intercalate ((regionOutBlocksN p).map (fun bi =>
+      s!"{bi}:{regionKeyN p bi}:{if regionTaskOk p bi then "ok" else "bad"}"))
   | ["scaninc", s, bi] =>
     s!"{scanIncKey ((parseNat? s).getD 5) ((parseNat? bi).getD 0)} {scanIncSlot ((parseNat? s).getD 5) ((parseNat? bi).getD 0)}"
   | ["stackkey", ax, out] =>
